@@ -38,11 +38,11 @@ func c06Run(ctx *core.Ctx) {
 	spread := 2
 	if ctx.Thorough() {
 		ns = nil
-		for i := int64(1); i <= 64; i++ {
+		for i := int64(1); i <= 160; i++ {
 			ns = append(ns, i)
 		}
-		ns = append(ns, 100, 4096, 5000)
-		spread = 8
+		ns = append(ns, 255, 256, 257, 1000, 4095, 4096, 4097, 5000, 8192)
+		spread = 12
 	}
 	ctx.Rule = fmt.Sprintf("limits N in %v x message sizes N-%d..N+%d and 3N x transfer {DATA (plain and dot-stuffed first line), every composition into <=3 BDAT chunks for small sizes, seeded chunkings otherwise} x backend read sizes {1,2,3,N,N+1,4096} x declared SIZE {absent, N-1, N, N+1, 2N, 2^32-1} x {SMTP, LMTP, LMTP per-recipient}; every case is also executed with the limit off and the outcomes compared when the message fits. Non-trivial: size within 2 of N or above; distinct by full case.", ns, spread, spread)
 	ctx.Assumptions = []string{"SIZE values beyond 32 bits are not generated here (C11/C14)", "a DATA message of size 1 does not exist (a non-empty DATA message ends in CRLF)"}
